@@ -23,7 +23,8 @@ RULE = ('cases = command field (all 23) x data set absent/present (sizes around 
         'ENOSPC/EIO at the n-th file write; oracle after EVERY PDU: nothing delivered and '
         'decoder still receiving until the PDV R-dimse designates, then exactly one message of '
         'the right class, context, command set and data bytes; non-trivial = >= 2 fragments; '
-        'distinct = distinct (code, sizes, composition, mode, state)')
+        'distinct = distinct (code, sizes, composition, mode, state)'
+        '; duplex (outgoing generator messages handed over before each incoming PDU) and rival (a second thread receiving file-backed instances under pre-emption) cases')
 ASSUMPTIONS = ['R-dimse completion rule: last command fragment if Command Data Set Type = 0101H, '
                'else last data fragment', 'pydicom is not used by the oracle: the Part-10 meta '
                'header is read by a small explicit-VR-LE reader written for the check',
